@@ -90,6 +90,7 @@ def work(args):
                 continue
             nv += 1
             out.append((s, v["oracle"], str(v.get("msg", ""))[:400]))
+    core._rm_own_scratch()
     return modname, n, out
 
 
